@@ -293,6 +293,10 @@ func (fc *FnCtx) queryTextSliced(o *Obligation, withModel bool, sliced bool) str
 			if in.Term != "" && !seen[in.Term] {
 				seen[in.Term] = true
 				terms = append(terms, in.Term)
+				if in.Sort == sStr {
+					// a string is abstract in the model: what the percent spec functions say about it makes it concrete
+					terms = append(terms, "(isPct "+in.Term+")", "(pctNum "+in.Term+")")
+				}
 			}
 		}
 		if len(terms) > 0 {
